@@ -165,8 +165,8 @@ Definition eevent_eqb (a b : eevent) : bool :=
 Fixpoint eevents_eqb (a b : list eevent) : bool :=
   match a, b with [], [] => true | x :: a', y :: b' => eevent_eqb x y && eevents_eqb a' b' | _, _ => false end.
 
-(* the ideal engine of the oracle: like the engine, but a pending entry remembers the hash it was ended with,
-   and a parent lookup does not accept a pending entry that is known to be another block *)
+(* the ideal engine of the oracle: entries are blocks; a pending entry that is ended is from then on the block
+   (slot, hash) it ended as, and a parent lookup does not accept an entry that is known to be another block *)
 Record ientry := mkIE { ie_id : ipb; ie_count : N; ie_hash : hash; ie_ended : option hash }.
 Fixpoint i_get (e : list ientry) (i : ipb) : option ientry :=
   match e with [] => None | x :: t => if ipb_eqb (ie_id x) i then Some x else i_get t i end.
@@ -175,6 +175,7 @@ Fixpoint i_put (e : list ientry) (x : ientry) : list ientry :=
   | [] => [x]
   | y :: t => if ipb_eqb (ie_id y) (ie_id x) then x :: t else y :: i_put t x
   end.
+Definition i_del (e : list ientry) (i : ipb) : list ientry := filter (fun x => negb (ipb_eqb (ie_id x) i)) e.
 Definition i_parent (e : list ientry) (p : block_id) : option ientry :=
   match i_get e (Known (fst p) (snd p)) with
   | Some x => Some x
@@ -206,7 +207,11 @@ Definition i_step (genesis : hash) (e : list ientry) (o : eop) : list ientry * l
     | Some x => (e, [(b, ie_count x, ie_hash x)])
     | None =>
       match i_get e (Pending (fst b)) with
-      | Some x => (i_put e (mkIE (ie_id x) (ie_count x) (ie_hash x) (Some (snd b))), [(b, ie_count x, ie_hash x)])
+      | Some x =>
+        (* the block's identity is known from here on: it is filed under it, so that the state of an ended
+           block is never reported for, or inherited by children of, another block of the same slot *)
+        (i_put (i_del e (Pending (fst b))) (mkIE (Known (fst b) (snd b)) (ie_count x) (ie_hash x) (Some (snd b))),
+         [(b, ie_count x, ie_hash x)])
       | None => (e, [])
       end
     end
@@ -218,7 +223,7 @@ Definition genesisN : hash := hexN GENESIS_BLOCK_HASH.
 Definition run_eop (st : erun) (oi : ceop * list cevent) : erun :=
   let o := eop_of (fst oi) in
   let iev := map ev_of (snd oi) in
-  let '(m', mev) := eng_step shaN genesisN (er_model st) o in
+  let '(m', mev) := eng_step shaN genesisN true (er_model st) o in
   let '(i', oev) := i_step genesisN (er_ideal st) o in
   mkERun m' i' (N.lor (er_flags st) (N.lor (flag (negb (eevents_eqb iev mev)) 1) (flag (negb (eevents_eqb iev oev)) 2))).
 
